@@ -24,12 +24,15 @@ PairCases(b, bi) ==
 \* tails and bodies are few: all of them in every tier
 TailCases(b) == \A s \in 0..(b.ntails - 1) : \A j \in 1..Len(ContentTails) : Emit(b, <<[k |-> "tail", stream |-> s, val |-> ContentTails[j]]>>)
 BodyCases(b) == \A o \in 0..(b.nbodies - 1) : \A j \in 1..Len(BodyVals) : Emit(b, <<[k |-> "body", obj |-> o, val |-> BodyVals[j]]>>)
+\* few: all of them in every tier
+XrefCutCases(b) == \A n \in 0..12 : \A pad \in {"none", "blank", "comment"} :
+                     LET f == [k |-> "xrefcut", lines |-> n, pad |-> pad] IN WellFormed(b, f) /\ Emit(b, <<f>>)
 RandomCases(b) == \A n \in 1..Randoms : Emit(b, <<[k |-> "random", n |-> n, len |-> (n * 97) % 2048, header |-> n % 2 = 0]>>)
 
 VARIABLE done
 MCInit == done = FALSE /\ Init
 MCNext == /\ ~done
-          /\ \A bi \in 1..Len(BaseRecs) : LET b == B(bi) IN SlotCases(b, bi) /\ StructCases(b, bi) /\ KeywordCases(b, bi) /\ PairCases(b, bi) /\ TailCases(b) /\ BodyCases(b)
+          /\ \A bi \in 1..Len(BaseRecs) : LET b == B(bi) IN SlotCases(b, bi) /\ StructCases(b, bi) /\ KeywordCases(b, bi) /\ PairCases(b, bi) /\ TailCases(b) /\ BodyCases(b) /\ XrefCutCases(b)
           /\ RandomCases(B(1))
           /\ \A i \in 1..NBombs : Emit(B(1), <<[k |-> "bomb", name |-> BombNames[i]]>>)
           /\ done' = TRUE /\ UNCHANGED <<nfaults, answered>>
